@@ -64,4 +64,13 @@ struct Nodes {
 	void VerifyInBounds(unsigned i) const { if (i >= count) throw std::runtime_error("out of range"); }
 	bool IsLast(unsigned i) const noexcept { VerifyInBounds(i); return i + 1 == count; }
 };
+
+// R-GUARD (subscript guards): a bounds refusal that also turns away the last valid index
+struct Entries {
+	std::vector<uint16_t> items;
+	uint16_t At(std::size_t index) const {
+		if (index + 1 >= items.size()) { throw std::out_of_range("index"); }
+		return items[index];
+	}
+};
 }
